@@ -39,7 +39,9 @@ def formula_close(got, ref, absbound, eps, nterms=1, c=8.0, floor=0.0):
         return True, 0.0
     if not np.all(np.isfinite(got)):
         return False, float("inf")
-    lim = c * (nterms + 8) * eps * np.asarray(absbound) + floor
+    # underflow floor: products of tiny factors flush to zero below the smallest normal number of the working dtype
+    tiny = 1.2e-38 if eps > 1e-10 else 2.3e-308
+    lim = c * (nterms + 8) * eps * np.asarray(absbound) + floor + 1e6 * tiny
     err = np.abs(got.astype(np.complex128) - ref.astype(np.complex128))
     with np.errstate(divide="ignore", invalid="ignore"):
         ratio = np.where(err == 0, 0.0, err / np.where(lim > 0, lim, np.finfo(float).tiny))
